@@ -255,6 +255,22 @@ MUTANTS = [
      'edits': [(VM, "        self.reset_stack();\n\n        error.clone()", "        error.clone()")]},
     {'name': 'N4 reset keeps user chunks', 'prop': 'C15', 'expect': 'N4 / Vm.chunks survives reset()',
      'edits': [(VM, "        self.chunks = self.core_chunks.clone();\n", "")]},
+    # ---- C17 ----------------------------------------------------------------------------------------
+    {'name': 'L1 two arms of the raising table swapped', 'prop': 'C17', 'expect': 'L1 / round trip of ErrorKind::IndexError',
+     'edits': [(VM, "            ErrorKind::IndexError => self.class_store.index_error_class(),\n            ErrorKind::NameError => self.class_store.name_error_class(),",
+                "            ErrorKind::IndexError => self.class_store.name_error_class(),\n            ErrorKind::NameError => self.class_store.index_error_class(),")]},
+    {'name': 'L1 reporting chain tests runtime_error_class first as CompileError again', 'prop': 'C17', 'expect': 'L1 / ',
+     'edits': [(VM, "            } else if class == self.class_store.import_error_class() {\n                ErrorKind::ImportError",
+                "            } else if class == self.class_store.runtime_error_class() {\n                ErrorKind::CompileError\n            } else if class == self.class_store.import_error_class() {\n                ErrorKind::ImportError")]},
+    {'name': 'L2 operand byte written without a line entry', 'prop': 'C17', 'expect': 'L2 / ',
+     'edits': [(COMP, "    fn emit_bytes(&mut self, bytes: [u8; 2]) {\n        self.emit_byte(bytes[0]);\n        self.emit_byte(bytes[1]);",
+                "    fn emit_bytes(&mut self, bytes: [u8; 2]) {\n        self.emit_byte(bytes[0]);\n        self.chunk().code.push(bytes[1]);")]},
+    {'name': 'L2 traceback uses the ip itself, not ip - 1', 'prop': 'C17', 'expect': 'L2 / runtime_error: offset is ip - 1',
+     'edits': [(VM, "            let instruction = chunk.code_offset(frame.ip) - 1;", "            let instruction = chunk.code_offset(frame.ip);")]},
+    {'name': 'L3 newline inside a string literal not counted', 'prop': 'C17', 'expect': 'L3 / yarel::scanner::Scanner::string / newline arm',
+     'edits': [(SCAN, "                    buffer.push_str(s);\n                    self.line += 1;", "                    buffer.push_str(s);")]},
+    {'name': 'L3 error_at reports the previous token line', 'prop': 'C17', 'expect': 'L3 / error_at formats token.line',
+     'edits': [(COMP, "            self.module_path.as_str(),\n            token.line\n", "            self.module_path.as_str(),\n            self.previous.line\n")]},
 ]
 
 BENIGN = [
